@@ -110,7 +110,14 @@ def analyse(f, tracked, kill_strength, edge_refresh=None, edge_unkill=None, subs
             if vs:
                 st = dict(st)
                 for v in vs:
-                    st[v] = frozenset()
+                    if isinstance(v, tuple):
+                        # ("eq", x, y): both name the same object on this edge; what validates one validates the other
+                        _, x, y = v
+                        both = st.get(x, frozenset()) & st.get(y, frozenset())
+                        st[x] = both
+                        st[y] = both
+                    else:
+                        st[v] = frozenset()
         if edge_unkill is not None:
             pred = edge_unkill(c, idx == 0, blk)
             if pred is not None:
